@@ -50,9 +50,16 @@ MODES = ['', '', 'segment', 'sec_within', 'segment,sec_within',
          'sec_colon_required', 'sec_colon_cautious', 'TRS_desc', 'desc_STR',
          'S_desc_TR', 'TR_desc_S', 'copy_all']
 
+# The harness' own idea of a principal-meridian designation: a Twp/Rge,
+# separators (line breaks included), an optional 'of the', at most 30 more
+# characters ON ONE LINE (the meridian's name), separators, 'P.M.' /
+# 'Meridian'. Markers are not inserted inside such a span (the library drops
+# the name of the meridian by design); anywhere else they must survive --
+# in particular on a line of their own between a Twp/Rge and a later P.M.
 _PM_SPAN = re.compile(
     r"(\d\s*[NSns][a-z]{0,5}[\s.,\-–—;|_~]*(R[a-z]{0,6})?[\s.,\-–—]*\d{1,3}"
-    r"[\s.,\-–—]*([EWew][a-z]{0,3})?).{0,45}?(P\.?\s*M\.?|Meridian)", re.S)
+    r"[\s.,\-–—]*([EWew][a-z]{0,3})?)[\s:,;.\-–—]*(of)?\s*(the)?\s*"
+    r"[^\n]{0,30}?[\s:,;.\-–—]*(P\.?\s*M\.?|Meridian)", re.I)
 _SEPCH = ',;:-–—\t\n .'
 _CULL = {'the', 'all', 'of', 'in', 'and'}
 
@@ -210,6 +217,21 @@ def gen_case(rng):
         pm = rng.choice(['5th P.M.', 'Fifth Principal Meridian', '5 PM'])
         text = re.sub(r'(T\d+[NS]-R\d+[EW])', r'\1' + j + pm, text, count=1)
         fam = 'with-pm'
+    elif r < 0.70:
+        # A principal-meridian designation on a line of its own, AFTER a
+        # line of description: the words of that line are not part of it.
+        tw = G.render_twprge((rng.randint(1, 160), rng.choice('ns'),
+                              rng.randint(3, 99), rng.choice('ew')),
+                             rng.choice(['compact', 'words', 'abbr']))
+        n = rng.randint(1, 36)
+        blk = rng.choice(['NE/4', 'Lot 1', 'W/2', 'N/2NE/4', 'Lots 1, 2'])
+        pm = rng.choice(['5th P.M.', 'Fifth Principal Meridian',
+                         'of the 5th P.M.', 'P.M.'])
+        if pm == 'P.M.':
+            blk += ', 5th'      # separators alone would bridge the lines
+        text = (f"{tw}\nSec {n}: {blk}\n{pm}" if rng.random() < 0.7 else
+                f"{tw}\n{blk} of Sec {n}\n{pm}")
+        fam = 'pm-on-later-line'
     pts = insertion_points(text)
     marker = rng.choice(MARKERS)
     pos = rng.choice(pts)
